@@ -799,4 +799,126 @@ bool vf_scope(const std::string &name, Scope &s)
     return true;
 }
 
-int vf_custom(int, char **) { fprintf(stderr, "unknown engine\n"); return 2; }
+// ---------------------------------------------------------------- C17(a): the built-in hash functions stay in range
+namespace {
+struct C17Stats { uint64_t evals = 0, nontrivial = 0; std::vector<std::string> samples; };
+void c17_eval(size_t k, size_t m, C17Stats &st)
+{
+    size_t r = cstl_hash_mul(k, m);
+    if (r >= m) {
+        g_cur_op = "cstl_hash_mul";
+        verif_fail("C17.mul.range", "cstl_hash_mul(%zu, %zu) = %zu is not below the table size", k, m, r);
+    }
+    size_t d = cstl_hash_div(k, m);
+    if (d >= m || d != k % m) {
+        g_cur_op = "cstl_hash_div";
+        verif_fail("C17.div.range", "cstl_hash_div(%zu, %zu) = %zu, expected %zu", k, m, d, k % m);
+    }
+    st.evals++;
+    if (m >= 2) st.nontrivial++;
+}
+// the smallest table size that converts to the float F (round-to-nearest-even as the compiler does it)
+size_t smallest_m_rounding_to(float F)
+{
+    long double Fl = F;
+    unsigned __int128 hi = Fl >= 18446744073709551616.0L ? (unsigned __int128)SIZE_MAX : (unsigned __int128)Fl;
+    float P = nextafterf(F, 0.0f);
+    unsigned __int128 lo = (unsigned __int128)(long double)P + 1;      // first integer above the previous float
+    while (lo < hi) {
+        unsigned __int128 mid = (lo + hi) / 2;
+        if ((float)(size_t)mid == F) hi = mid; else lo = mid + 1;
+    }
+    return (size_t)lo;
+}
+int engine_c17a(const std::string &mode, const std::string &outdir, const std::string &tag, unsigned part, unsigned nparts, uint64_t seed)
+{
+    double t0 = now_s();
+    C17Stats st;
+    g_cur.open(outdir + "/cur-c17a-" + tag + ".case");
+    // keys whose fractional part of phi*k is as large as float arithmetic can make it
+    std::vector<size_t> hik;
+    {
+        std::vector<std::pair<float, size_t>> best;
+        for (size_t k = 1; k < (1u << 22); k++) {
+            float M = 1.61803398875f * k;
+            float fr = M - floorf(M);
+            if (fr > 0.99f) best.push_back({fr, k});
+        }
+        std::sort(best.begin(), best.end());
+        for (size_t i = 0; i < best.size() && i < 6; i++) hik.push_back(best[best.size() - 1 - i].second);
+        while (hik.size() < 6) hik.push_back(hik.empty() ? 377 : hik.back() + 233);
+    }
+    char sample[256];
+    uint64_t table_nt = 0;
+    if (mode == "small") {
+        // exhaustive: k in [0, 2^20) x m in 1..64 ; k in [2^20, 2^25] x a few m
+        for (size_t k = part; k < (1u << 20); k += nparts) for (size_t m = 1; m <= 64; m++) c17_eval(k, m, st);
+        static const size_t MS[] = {1, 2, 3, 7, 64, 1000, 4096, 65537, 16777216, 16777217, 16777219};
+        for (size_t k = (1u << 20) + part; k <= (1u << 25); k += nparts) for (size_t m : MS) c17_eval(k, m, st);
+        snprintf(sample, sizeof sample, "exhaustive k in [0,2^20) x m in 1..64, k in [2^20,2^25] x 11 sizes (partition %u/%u)", part, nparts);
+    } else if (mode == "grid" || mode == "gridq") {
+        // every float value the scale factor (float)m can take, with the smallest m that rounds to it, against the
+        // keys with the largest fractional parts and boundary keys. gridq: every 61st value + all values near binade ends
+        uint32_t stride = mode == "gridq" ? 61 : 1;
+        uint64_t idx = 0;
+        static const size_t BK[] = {0, 1, 2, 3, 5, 16777215, 16777216, 16777217, 4294967295ull, 4294967296ull, 9007199254740993ull,
+                                    9223372036854775808ull, SIZE_MAX - 1, SIZE_MAX};
+        for (float F = 16777216.0f; ; F = nextafterf(F, INFINITY)) {
+            bool last = F >= 18446744073709551616.0f;
+            uint32_t bits;
+            memcpy(&bits, &F, 4);
+            bool near_end = (bits & 0x7fffff) < 64 || (bits & 0x7fffff) > 0x7fffff - 64;
+            if ((idx % nparts) == part && (stride == 1 || near_end || (idx % stride) == 0)) {
+                size_t m = smallest_m_rounding_to(F);
+                for (size_t k : hik) c17_eval(k, m, st);
+                c17_eval(BK[idx % 14], m, st);
+                if (m < SIZE_MAX) c17_eval(hik[0], m + 1, st);
+            }
+            idx++;
+            if (last) break;
+        }
+        // below 2^24 every table size is its own float: all of them with the high-fraction keys
+        for (size_t m = 1 + part; m < (1u << 24); m += nparts * (mode == "gridq" ? 7 : 1)) { c17_eval(hik[0], m, st); c17_eval(hik[1], m, st); }
+        snprintf(sample, sizeof sample, "float grid of (float)m from 2^24 to 2^64 (stride %u) with the smallest m rounding to each value, keys %zu %zu %zu ...", stride, hik[0], hik[1], hik[2]);
+    } else if (mode == "boundary") {
+        std::vector<size_t> ks, ms;
+        for (int e = 0; e < 64; e++) for (long long d = -2; d <= 2; d++) { ks.push_back(((size_t)1 << e) + (size_t)d); ms.push_back(((size_t)1 << e) + (size_t)d); }
+        for (size_t k : hik) ks.push_back(k);
+        ks.push_back(SIZE_MAX); ms.push_back(SIZE_MAX);
+        // Fibonacci-hash worst cases: multiples of the golden-ratio denominators
+        size_t fa = 1, fb = 2;
+        for (int i = 0; i < 88; i++) { ks.push_back(fb); size_t t = fa + fb; fa = fb; fb = t; }
+        std::sort(ks.begin(), ks.end()); ks.erase(std::unique(ks.begin(), ks.end()), ks.end());
+        std::sort(ms.begin(), ms.end()); ms.erase(std::unique(ms.begin(), ms.end()), ms.end());
+        for (size_t k : ks) for (size_t m : ms) if (m >= 1) c17_eval(k, m, st);
+        table_nt = st.nontrivial;
+        Rng r(mix_seed(seed, part, 17));
+        for (uint64_t i = 0; i < 20000000ull / nparts; i++) {
+            size_t k = r.next(), m = r.next() >> r.below(64);
+            if (m == 0) m = 1;
+            c17_eval(k, m, st);
+        }
+        snprintf(sample, sizeof sample, "boundary keys x boundary sizes (2^e-2..2^e+2, SIZE_MAX, Fibonacci numbers) + random 64-bit pairs");
+    } else return 2;
+    FILE *f = fopen((outdir + "/stats-c17a-" + tag + ".json").c_str(), "w");
+    if (f) {
+        fprintf(f, "{\"engine\":\"c17a-%s\",\"harness\":\"hash\",\"prop\":\"C17\",\"evaluations\":%llu,\"nontrivial\":%llu,"
+                   "\"distinct_nontrivial\":0,\"distinct_extra\":%llu,\"wall_s\":%.3f,\"exhaustive\":%s,\"counters\":{},"
+                   "\"samples\":[{\"ops\":[\"%s\"],\"nontrivial\":true}]}\n",
+                mode.c_str(), (unsigned long long)st.evals, (unsigned long long)st.nontrivial,
+                (unsigned long long)(mode == "boundary" ? table_nt : st.nontrivial),   // random pairs are not counted as distinct
+                now_s() - t0, mode == "boundary" || mode == "gridq" ? "false" : "true", sample);
+        fclose(f);
+    }
+    return 0;
+}
+} // namespace
+
+int vf_custom(int argc, char **argv)
+{
+    // c17a <small|grid|gridq|boundary> <outdir> <tag> <part> <nparts> <seed>
+    if (argc >= 7 && !strcmp(argv[0], "c17a"))
+        return engine_c17a(argv[1], argv[2], argv[3], (unsigned)atoi(argv[4]), (unsigned)atoi(argv[5]), strtoull(argv[6], 0, 0));
+    fprintf(stderr, "unknown engine\n");
+    return 2;
+}
